@@ -34,6 +34,9 @@ fn gds_s2i(case: &Value) -> Value {
         // constructor/projection self-test (machinery)
         let selfproj = lib_json(&lib);
         if let Some(d) = json_diff(&want, &selfproj, "") { out["glue_error"] = json!(format!("{:?}", d)); }
+        let st = lib.stats();
+        out["stats"] = json!({"libraries": st.libraries, "structs": st.structs, "boundaries": st.boundaries, "paths": st.paths, "struct_refs": st.struct_refs,
+                              "array_refs": st.array_refs, "text_elems": st.text_elems, "nodes": st.nodes, "boxes": st.boxes});
         match guarded(|| write_bytes(&lib)) {
             Err(p) => out["write"] = json!({"outcome":"panic","msg":p}),
             Ok(Err(e)) => out["write"] = json!({"outcome":"err","msg":e}),
